@@ -31,6 +31,9 @@ def classify(monitor, item, spec, res):
     cfg = spec["cfg"]
     if substring_ids(spec):
         return monitor + ":worker-id-substring-of-another"
+    if cfg.get("max_tries") is not None and int(cfg["max_tries"]) == 0 and monitor in ("overlap", "count"):
+        # the back-off budget is test_timeout * max_tries = 0: the emergency re-entry opens after the first back-off
+        return monitor + ":max_tries=0"
     feats = []
     cls = None
     parts = item.split("/")
